@@ -1,10 +1,12 @@
 pub mod echo;
+pub mod esc;
 
 pub type LaneFn = fn(&str) -> String;
 
 pub fn find(name: &str) -> Option<LaneFn> {
     Some(match name {
         "echo" => echo::run,
+        "esc" => esc::run,
         _ => return None,
     })
 }
